@@ -16,6 +16,8 @@
 //	hdr <dir> <ops…>                        header lists + table size updates encoded by one side, decoded by the other
 //	hdrcut <ops…>                           header blocks decoded while the emit callback switches emitting off mid-block (hdrcut.go)
 //	frames <dir> <frames…>                  frame sequences (padding, priority, CONTINUATION) written by one framer, read by the other
+//	hufftree / huff / huffenc               Huffman tree, decoder, encoder against the reference (h10_huff.go)
+//	fpay …                                  frame payload writers / parsers, every type at every boundary length (h10_fpay.go)
 //	lim rf … / lim conn …                   limits: frame size / padding / fixed lengths / SETTINGS ranges / WINDOW_UPDATE overflow at their boundaries (c18r6_limits.go)
 package c18
 
@@ -51,6 +53,8 @@ func Run(c *hx.Ctx) {
 	runPeer(c)
 	runPeerNeg(c)
 	runLimits(c) // c18r6_limits.go
+	runHuffman(c)  // h10_huff.go
+	runFramePayloads(c) // h10_fpay.go
 }
 
 func scatter(z uint64) uint64 {
